@@ -8,9 +8,23 @@ import collections
 import concurrent.futures
 import re
 
+import importlib
+
 import engine_props as ep
 import engine_run as er
 import vlib
+
+
+def prop_module(pid):
+    """optional property-specific module lib/props_<id>.py:  oracle(K, rec, counters) -> [messages],
+    extra_grams(tier, seed, start_gid) -> [corpus.Gram], choose_cfgs(g, k, tier) -> [cfg tuples] or None,
+    projection(rec, K, model) -> str, KNOWN_SIGS = {"KNOWN:tag": signature}, WANT_TAGS, BASE_CORPUS (bool), MAXLEN"""
+    try:
+        return importlib.import_module("props_" + pid.lower())
+    except ModuleNotFoundError as e:
+        if e.name != "props_" + pid.lower():
+            raise
+        return None
 
 
 KNOWN_SIGS = {
@@ -44,7 +58,11 @@ def work(args):
         out["error"] = K.error
         out["crash"] = getattr(K, "crash", None)
         return out
-    oracle = ep.ORACLES.get(pid)
+    pm_ = prop_module(pid)
+    oracle = getattr(pm_, "oracle", None) or ep.ORACLES.get(pid)
+    proj = getattr(pm_, "projection", None)
+    known_sigs = dict(KNOWN_SIGS)
+    known_sigs.update(getattr(pm_, "KNOWN_SIGS", {}))
     if pid == "C01":
         for g in ch:
             if g.surface is not None:
@@ -66,8 +84,12 @@ def work(args):
                 if len(out["diffs"]) < 5:
                     out["diffs"].append(("termination / bounds verdict differs", case_of(K, ri), ri["res"], rm["res"]))
             continue
-        pi = ep.projection(ri, pid)
-        pm = ep.projection(rm, pid, K=K, model=True)
+        if proj:
+            pi = proj(ri, K, False)
+            pm = proj(rm, K, True)
+        else:
+            pi = ep.projection(ri, pid)
+            pm = ep.projection(rm, pid, K=K, model=True)
         if pi != pm:
             out["ndiff"] += 1
             if len(out["diffs"]) < 5:
@@ -79,7 +101,7 @@ def work(args):
             msgs = oracle(K, ri, out["extra"])
             for msg in msgs[:3]:
                 if msg.startswith("KNOWN:"):
-                    sig = KNOWN_SIGS[msg]
+                    sig = known_sigs[msg.split("|")[0]]
                     if sig not in out["known_seen"]:
                         out["known_seen"].add(sig)
                         g = K.grams[ri["gid"]]
@@ -103,7 +125,10 @@ def work(args):
 
 def run(ctx, pid, want_tags=None, sanitize_thorough=False):
     ctx.proofs("Properties_" + pid)
-    grams, cfgs_of, chunks, maxlen = er.plan(ctx.tier, ctx.seed, want_tags=want_tags)
+    pm_ = prop_module(pid)
+    grams, cfgs_of, chunks, maxlen = er.plan(ctx.tier, ctx.seed, want_tags=want_tags or getattr(pm_, "WANT_TAGS", None),
+                                             extra=getattr(pm_, "extra_grams", None), choose=getattr(pm_, "choose_cfgs", None),
+                                             base=getattr(pm_, "BASE_CORPUS", True), maxlen=getattr(pm_, "MAXLEN", {}).get(ctx.tier) if pm_ else None)
     common = er.prepare_common()
     jobs = [(common, ch, cfgs_of, maxlen, pid, False) for ch in chunks]
     if sanitize_thorough and ctx.tier == "thorough":
@@ -163,16 +188,15 @@ def replay(j):
     g.alphabet = ""
     g.extra_inputs = [inp] if inp else []
     g.maxlen = 0
-    cfgs = [c for c in er.CFGS + er.EOL_CFGS if er.cfg_name(c) == rp["cfg"]]
-    if not cfgs:
-        print("unknown configuration", rp["cfg"])
-        return 2
+    cfgs = [er.cfg_of_name(rp["cfg"])]
     common = er.prepare_common()
     K = er.run_chunk(common, [g], {g.gid: cfgs[:1]}, 0, label="replay")
     if K.error:
         print("REPLAY: could not run:", K.error)
         return 1
-    oracle = ep.ORACLES.get(pid)
+    pm_ = prop_module(pid)
+    oracle = getattr(pm_, "oracle", None) or ep.ORACLES.get(pid)
+    proj = getattr(pm_, "projection", None)
     bad = 0
     cnt = collections.Counter()
     for ri, rm in zip(K.impl, K.model):
@@ -180,10 +204,14 @@ def replay(j):
             continue
         print("impl :", ri["res"], ri["cur"], ri["events"][:400])
         print("model:", rm["res"], rm["cur"], rm["events"][:400])
-        if ep.projection(ri, pid) != ep.projection(rm, pid, K=K, model=True):
+        differ = (proj(ri, K, False) != proj(rm, K, True)) if proj else (ep.projection(ri, pid) != ep.projection(rm, pid, K=K, model=True))
+        if differ:
             print("REPLAY: model and implementation differ on the %s projection" % pid)
             bad += 1
         for msg in (oracle(K, ri, cnt) if oracle else []):
+            if msg.startswith("KNOWN:"):
+                print("REPLAY: known finding reproduced:", msg)
+                continue
             print("REPLAY: VIOLATION reproduced:", msg)
             bad += 1
     if not bad:
